@@ -42,8 +42,97 @@ fn additional_values(len: usize, cap: usize, esize: usize, rng: &mut Rng, thorou
     v
 }
 
+/// Element types close to the largest size rustc accepts (2^61 - 1 bytes): no value is ever created, only the
+/// size computation runs. Every bucket count then needs more than isize::MAX bytes, so the one acceptable answer
+/// of try_reserve is Err(CapacityOverflow) without the allocator being asked; the infallible forms must panic
+/// with "capacity overflow".
+fn giant_elements<const N: usize>(c: &mut Ctx) {
+    use crate::ckalloc::{self, CkAlloc};
+    use hashbrown::TryReserveError;
+    type G<const N: usize> = [u8; N];
+    let bh = PlanBH::new(crate::plan::Plan::Mixed, 1);
+    let unrepresentable = (N as u128) * 4 > isize::MAX as u128;
+    for additional in [1usize, 2, 3, 4, 7, 8, 14, 15, 28, 1000] {
+        for which in 0..3 {
+            c.evaluations += 1;
+            c.sig_parts(&[950, N as u64, additional as u64, which]);
+            let what = format!("{}<[u8; {}]>::try_reserve({})", ["HashTable", "HashSet", "HashMap<(), _>"][which as usize], N, additional);
+            let a0 = ckalloc::counters();
+            let r = crate::util::catch(|| match which {
+                0 => {
+                    let mut t: hashbrown::HashTable<G<N>, CkAlloc> = hashbrown::HashTable::new_in(ckalloc::current());
+                    let r = t.try_reserve(additional, |_| 0);
+                    (r, t.capacity(), t.allocation_size())
+                }
+                1 => {
+                    let mut t: hashbrown::HashSet<G<N>, PlanBH, CkAlloc> = hashbrown::HashSet::with_hasher_in(bh, ckalloc::current());
+                    let r = t.try_reserve(additional);
+                    (r, t.capacity(), t.allocation_size())
+                }
+                _ => {
+                    let mut t: hashbrown::HashMap<(), G<N>, PlanBH, CkAlloc> = hashbrown::HashMap::with_hasher_in(bh, ckalloc::current());
+                    let r = t.try_reserve(additional);
+                    (r, t.capacity(), t.allocation_size())
+                }
+            });
+            let a1 = ckalloc::counters();
+            match r {
+                Err(p) => crate::viol!("{}: panicked ({}) instead of returning an error", what, crate::util::payload_str(&p)),
+                Ok((Ok(()), cap, size)) => crate::viol!("{}: returned Ok (capacity() {}, allocation_size() {}) although no table of this element type is representable", what, cap, size),
+                Ok((Err(TryReserveError::CapacityOverflow), cap, size)) => {
+                    crate::check!(cap == 0 && size == 0, "{}: the failed call left capacity() {} / allocation_size() {}", what, cap, size);
+                    crate::check!(a1.allocs == a0.allocs && a1.refusals == a0.refusals, "{}: CapacityOverflow although the allocator was asked", what);
+                    c.bump("giant_element_overflows_reported");
+                }
+                Ok((Err(TryReserveError::AllocError { layout }), _, _)) => {
+                    crate::check!(!unrepresentable, "{}: the allocator was asked for {} bytes although the size is not representable", what, layout.size());
+                    c.bump("giant_element_alloc_errors");
+                }
+            }
+            // the infallible counterpart reports by panicking
+            let r = crate::util::catch_expected(|| match which {
+                0 => {
+                    let mut t: hashbrown::HashTable<G<N>, CkAlloc> = hashbrown::HashTable::new_in(ckalloc::current());
+                    if unrepresentable {
+                        t.reserve(additional, |_| 0);
+                    }
+                    t.capacity()
+                }
+                1 => {
+                    let t: hashbrown::HashSet<G<N>, PlanBH, CkAlloc> = if unrepresentable { hashbrown::HashSet::with_capacity_and_hasher_in(additional, bh, ckalloc::current()) } else { hashbrown::HashSet::with_hasher_in(bh, ckalloc::current()) };
+                    t.capacity()
+                }
+                _ => {
+                    let mut t: hashbrown::HashMap<(), G<N>, PlanBH, CkAlloc> = hashbrown::HashMap::with_hasher_in(bh, ckalloc::current());
+                    if unrepresentable {
+                        t.reserve(additional);
+                    }
+                    t.capacity()
+                }
+            });
+            if unrepresentable {
+                match r {
+                    Ok(cap) => crate::viol!("{} (infallible form): returned normally with capacity() {}", what, cap),
+                    Err(msg) => crate::check!(msg.to_lowercase().contains("capacity overflow"), "{} (infallible form): panicked with an unexpected message: {}", what, msg),
+                }
+            }
+        }
+    }
+}
+
 pub fn run(c: &mut Ctx) {
     c.run_scenarios(|c, idx, rng| {
+        if crate::util::mix(idx ^ 0x61a) % 50 == 0 {
+            let mut d = Json::obj();
+            d.set("case", Json::s("element types of nearly the largest representable size"));
+            c.describe(d);
+            giant_elements::<{ (1 << 61) - 1 }>(c);
+            giant_elements::<{ (1 << 61) - 2 }>(c);
+            giant_elements::<{ (1 << 61) - 16 }>(c);
+            giant_elements::<{ (1 << 60) + 1 }>(c);
+            giant_elements::<{ (1 << 60) - 1 }>(c);
+            return;
+        }
         let name = C12_COLLS[(crate::util::mix(idx) % C12_COLLS.len() as u64) as usize];
         for_coll!(name, scenario(c, idx, rng, name));
     });
